@@ -512,7 +512,10 @@ theorem pod_label_edit_inv (c : Ctl) (v : Pod) (c' : Ctl) (hph : v.phase ≠ "F"
         rw [if_pos this, hch]
         simp
       rw [hev]
-      simp [runAll, runEvents, handle, hfind, hpe]
+      have hid : idReplays c1 o v = [] := by
+        unfold idReplays
+        simp [hsa, hnode]
+      simp [runAll, runEvents, handle, hfind, hpe, hid]
     show InvExcept (runAll c1 _) P
     rw [hrun, recompute_eq]
     -- before the recompute only the slices that refer to the pod are out of date
